@@ -7,8 +7,8 @@ EXTENDS Occupancy, Json
 CONSTANTS Scale,     \* 1 = quick scope, 2 = thorough scope (more start positions, scenarios of <= 4 obstacles)
           TMax
 
-VARIABLES mode, o, S, t
-vars == <<mode, o, S, t>>
+VARIABLES mode, o, S, t, md          \* md: the ONE modification of a history case (mode "hist")
+vars == <<mode, o, S, t, md>>
 
 (* ---- shapes (all with their centroid at the shape origin) ------------------------------------------- *)
 Tri  == <<<<2, -1>>, <<-1, 2>>, <<-1, -1>>>>                      \* asymmetric bounding box, centroid (0, 0)
@@ -127,12 +127,43 @@ QIvs      == <<<<0, 1>>, <<1, 3>>, <<-9, 9>>>>                        \* 3 x 3 f
 QRoleSets == <<<<"dynamic", "static">>, <<"static", "dynamic", "phantom", "environment">>, <<"phantom">>, <<"environment">>>>
 QTimes    == <<0, 1, 3>>
 
+(* ---- history cases: <<target (id 1), bystander Red(2)>> x ONE public modification ----------------------- *)
+HShapes == IF Scale = 1 THEN {ShRect31, ShTri} ELSE {ShRect31, ShTri, ShCross, ShDisc}
+HTG     == IF Scale = 1 THEN {<<0, 0>>, <<1, 1>>} ELSE {<<0, 0>>, <<1, 1>>, <<0, 1>>, <<1, 0>>, <<2, 2>>}     \* <<t0, gap>>
+HTraj(sh, t0, g, kind) == Ob(1, "dynamic", "car", t0, sh, St("initial", t0, 1, 2, 1), PTraj(g, TrajOf(kind, t0, g, 2, <<1, 2>>, 1, M2)))
+HTrajTargets == {HTraj(sh, tg[1], tg[2], kind) : sh \in HShapes, tg \in HTG, kind \in Kinds}
+HSetTargets  == {Ob(1, "dynamic", "truck", 0, ShRect42, St("initial", 0, 1, 2, 1), PSet(g, OccsOf(1, 0, g, 2, <<1, 2>>, 1, M2))) : g \in {0, 1}}
+HOthers == {Ob(1, "dynamic", "car", 1, ShTri, St("initial", 1, 1, 2, 1), [k |-> "none"]),
+            Ob(1, "static", "parkedVehicle", 0, ShTri, St("initial", 0, 1, 2, 1), [k |-> "none"]),
+            Phantom(1, 0, PSet(0, OccsOf(2, 0, 0, 2, <<1, 2>>, 1, M2))),
+            Ob(1, "environment", "building", 0, ShRect31, St("initial", 0, 1, 2, 1), [k |-> "none"])}
+Mvs == {[tx |-> 1, ty |-> 0, q |-> 0], [tx |-> 0, ty |-> 0, q |-> 1], [tx |-> -2, ty |-> 3, q |-> 3]}
+Mv(via, id, v) == [k |-> "move", via |-> via, id |-> id, tx |-> v.tx, ty |-> v.ty, q |-> v.q]
+HasPred(ob) == ob.role \in {"dynamic", "phantom"} /\ ob.pred.k # "none"
+Moves(ob) ==      \* custom point-mass states (CustomState with velocity components only) are rotated by C05's subject, not here
+    LET vs == IF ob.role = "dynamic" /\ ob.pred.k = "traj" /\ ob.pred.states[1].kind = "custompm" THEN {v \in Mvs : v.q = 0} ELSE Mvs
+    IN {Mv("obstacle", 1, v) : v \in vs} \cup {Mv("scenario", 0, v) : v \in vs}
+       \cup (IF HasPred(ob) THEN {Mv("prediction", 1, v) : v \in vs} ELSE {})
+AltTraj(kind, t0, i) == IF i = 1 THEN TrajOf(kind, t0, 2, 3, <<0, -1>>, 2, M1) ELSE TrajOf("oriented", t0, 0, 1, <<3, 3>>, 3, M1)
+AltSet(t0) == PSet(1, OccsOf(2, t0, 1, 2, <<0, 0>>, 0, M1))
+TrajMods(ob) ==
+    LET kind == ob.pred.states[1].kind
+    IN {[k |-> "set_trajectory", id |-> 1, states |-> AltTraj(kind, ob.t0, i)] : i \in {1, 2}}
+       \cup {[k |-> "set_shape", id |-> 1, shape |-> sh] : sh \in {ShRect42, ShDisc}}
+       \cup {[k |-> "update_prediction", id |-> 1, pred |-> pr] : pr \in {PTraj(2, AltTraj(kind, ob.t0, 1)), AltSet(ob.t0)}}
+OtherMods(ob) == IF ob.role = "dynamic" /\ ob.pred.k # "traj"
+                 THEN {[k |-> "update_prediction", id |-> 1, pred |-> PTraj(2, AltTraj("pm", ob.t0, 1))]} ELSE {}
+HistCases == UNION {{<<<<ob, Red(2)>>, mm>> : mm \in Moves(ob) \cup TrajMods(ob)} : ob \in HTrajTargets}
+             \cup UNION {{<<<<ob, Red(2)>>, mm>> : mm \in Moves(ob) \cup OtherMods(ob)} : ob \in HSetTargets \cup HOthers}
+
 (* ---- model -------------------------------------------------------------------------------------------- *)
 Dummy == Phantom(0, 0, [k |-> "none"])
+NoMod == [k |-> "none", id |-> -1]
 Init == /\ t = 0
-        /\ \/ mode = "ob" /\ o \in ObDescs /\ S = <<>>
-           \/ mode = "sc" /\ o = Dummy /\ S \in Scenarios
-Tick == t < TMax /\ t' = t + 1 /\ UNCHANGED <<mode, o, S>>
+        /\ \/ mode = "ob" /\ o \in ObDescs /\ S = <<>> /\ md = NoMod
+           \/ mode = "sc" /\ o = Dummy /\ S \in Scenarios /\ md = NoMod
+           \/ mode = "hist" /\ o = Dummy /\ \E c \in HistCases : S = c[1] /\ md = c[2]
+Tick == t < TMax /\ t' = t + 1 /\ UNCHANGED <<mode, o, S, md>>
 Next == Tick
 Spec == Init /\ [][Next]_vars
 
@@ -187,37 +218,61 @@ LawObligations ==                                                               
 
 (* ---- laws of the scenario-level operators: exactly the images of the per-obstacle answers ------------ *)
 Ids(T) == {T[i].id : i \in DOMAIN T}
+ES == IF mode = "hist" THEN ModifyS(S, md) ELSE S          \* the scenario the queries are answered on (current data)
 LawScenarioOcc ==
-    mode = "sc" =>
-        /\ Cardinality(Ids(S)) = Len(S)
+    mode \in {"sc", "hist"} =>
+        /\ Cardinality(Ids(ES)) = Len(ES)
         /\ \A r \in Range(QRoles) :
-              /\ Cardinality(OccAt(S, t, r)) = Cardinality({i \in DOMAIN S : RoleOK(S[i], r) /\ Occ(S[i], t).k # "None"})
-              /\ {p[1] : p \in OccAt(S, t, r)} = {S[i].id : i \in {j \in DOMAIN S : RoleOK(S[j], r) /\ InHorizon(S[j], t)}}
-              /\ \A p \in OccAt(S, t, r) : \E i \in DOMAIN S : S[i].id = p[1] /\ Occ(S[i], t) = p[2]
-        /\ OccAt(S, t, "any") = UNION {OccAt(S, t, r) : r \in {"static", "dynamic", "phantom", "environment"}}
+              /\ Cardinality(OccAt(ES, t, r)) = Cardinality({i \in DOMAIN ES : RoleOK(ES[i], r) /\ Occ(ES[i], t).k # "None"})
+              /\ {p[1] : p \in OccAt(ES, t, r)} = {ES[i].id : i \in {j \in DOMAIN ES : RoleOK(ES[j], r) /\ InHorizon(ES[j], t)}}
+              /\ \A p \in OccAt(ES, t, r) : \E i \in DOMAIN ES : ES[i].id = p[1] /\ Occ(ES[i], t) = p[2]
+        /\ OccAt(ES, t, "any") = UNION {OccAt(ES, t, r) : r \in {"static", "dynamic", "phantom", "environment"}}
 LawScenarioStates ==
-    mode = "sc" =>
-        /\ {p[1] : p \in StatesAt(S, t)} =
-               {S[i].id : i \in {j \in DOMAIN S : S[j].role = "static" \/ (S[j].role = "dynamic" /\ StateAt(S[j], t).k = "state")}}
-        /\ \A p \in StatesAt(S, t) : \E i \in DOMAIN S : S[i].id = p[1] /\ StateAt(S[i], t) = p[2]
-                                                          /\ (S[i].role = "dynamic" => p[2].t = t)
+    mode \in {"sc", "hist"} =>
+        /\ {p[1] : p \in StatesAt(ES, t)} =
+               {ES[i].id : i \in {j \in DOMAIN ES : ES[j].role = "static" \/ (ES[j].role = "dynamic" /\ StateAt(ES[j], t).k = "state")}}
+        /\ \A p \in StatesAt(ES, t) : \E i \in DOMAIN ES : ES[i].id = p[1] /\ StateAt(ES[i], t) = p[2]
+                                                          /\ (ES[i].role = "dynamic" => p[2].t = t)
 LawScenarioFilters ==
-    mode = "sc" =>
-        /\ ByRoleType(S, "any", "any") = Ids(S)
-        /\ \A ty \in Range(QTypes) : ByRoleType(S, "any", ty) = UNION {ByRoleType(S, r, ty) : r \in {"static", "dynamic", "phantom", "environment"}}
+    mode \in {"sc", "hist"} =>
+        /\ ByRoleType(ES, "any", "any") = Ids(ES)
+        /\ \A ty \in Range(QTypes) : ByRoleType(ES, "any", ty) = UNION {ByRoleType(ES, r, ty) : r \in {"static", "dynamic", "phantom", "environment"}}
         /\ \A r \in Range(QRoles), ty \in Range(QTypes) :
-              ByRoleType(S, r, ty) = {S[i].id : i \in {j \in DOMAIN S : RoleOK(S[j], r) /\ (ty = "any" \/ S[j].type = ty)}}
+              ByRoleType(ES, r, ty) = {ES[i].id : i \in {j \in DOMAIN ES : RoleOK(ES[j], r) /\ (ty = "any" \/ ES[j].type = ty)}}
         /\ \A rs \in Range(QRoleSets) :
               LET R == Range(rs)
-              IN /\ ByPositionMay(S, QIvs[3], QIvs[3], R, t) = {S[i].id : i \in {j \in DOMAIN S : S[j].role \in R /\ InHorizon(S[j], t)}}
+              IN /\ ByPositionMay(ES, QIvs[3], QIvs[3], R, t) = {ES[i].id : i \in {j \in DOMAIN ES : ES[j].role \in R /\ InHorizon(ES[j], t)}}
                  /\ \A ix \in Range(QIvs), iy \in Range(QIvs) :
-                       /\ ByPosition(S, ix, iy, R, t) \subseteq ByPositionMay(S, ix, iy, R, t)
-                       /\ ByPosition(S, ix, iy, R, t) \subseteq ByPosition(S, QIvs[3], QIvs[3], R, t)     \* monotone
-                       /\ ByPositionMay(S, ix, iy, R, t) \subseteq {p[1] : p \in OccAt(S, t, "any")}      \* only existing occupancies
+                       /\ ByPosition(ES, ix, iy, R, t) \subseteq ByPositionMay(ES, ix, iy, R, t)
+                       /\ ByPosition(ES, ix, iy, R, t) \subseteq ByPosition(ES, QIvs[3], QIvs[3], R, t)     \* monotone
+                       /\ ByPositionMay(ES, ix, iy, R, t) \subseteq {p[1] : p \in OccAt(ES, t, "any")}      \* only existing occupancies
+
+(* ---- laws of the history dimension: the contract holds for the current data --------------------------- *)
+LawModify ==
+    mode = "hist" =>
+        \A i \in DOMAIN S :
+           LET a == S[i]  b == ES[i]
+           IN /\ Cardinality(Sources(b, t)) <= 1 /\ ((Sources(b, t) # {}) <=> InHorizon(b, t))
+              /\ (Source(b, t).k \in {"Initial", "Traj"} => SrcState(b, t) = StateAt(b, t) /\ StateAt(b, t).t = t)   \* same source
+              /\ (b.role = "dynamic" /\ StateAt(b, t).k = "state" => StateAt(b, t).t = t)
+              /\ (~Targets(a, md) => b = a)                                                   \* bystanders are untouched
+              /\ (md.k = "move" /\ Targets(a, md) =>                                          \* Occ(Move(o, m), t) = Move(Occ(o, t), m)
+                     IF md.via = "prediction" /\ a.role = "dynamic" /\ t = a.t0 THEN Occ(b, t) = Occ(a, t)
+                     ELSE Occ(b, t) = MoveRegion(md, Occ(a, t)))
+              /\ (md.k # "move" /\ Targets(a, md) =>
+                     /\ Occ(b, a.t0) = Occ(a, a.t0)                                           \* the initial occupancy is not the prediction's
+                     /\ (md.k = "set_shape" => /\ Source(b, t) = Source(a, t)
+                                               /\ (Source(a, t).k = "Traj" => Occ(b, t) = Placed(md.shape, PoseOf(SrcState(a, t)))))
+                     /\ (md.k = "set_trajectory" /\ Source(b, t).k = "Traj" =>
+                            Occ(b, t) = Placed(a.shape, PoseOf(md.states[Source(b, t).i])) /\ md.states[Source(b, t).i].t = t))
 
 (* ---- generation: one case per descriptor / scenario --------------------------------------------------- *)
 UncTimes(ob) == {tt \in 0..TMax : IsUncertain(ob, tt)}
-Case == IF mode = "ob"
+HistTMax == LET L == {LastT(S[i]) : i \in DOMAIN S} \cup {LastT(ES[i]) : i \in DOMAIN S}
+            IN 1 + CHOOSE x \in L : \A y \in L : y <= x
+Case == IF mode = "hist"
+        THEN [kind |-> "hist", S |-> S, m |-> md, S2 |-> ES, tmax |-> HistTMax, ivs |-> <<QIvs[2], QIvs[3]>>]
+        ELSE IF mode = "ob"
         THEN [kind |-> "ob", o |-> o, tmax |-> TMax,
               obl |-> {[t |-> tt, poses |-> Obligations(SrcState(o, tt))] : tt \in UncTimes(o)}]
         ELSE [kind |-> "sc", S |-> S, tmax |-> 5, roles |-> QRoles, types |-> QTypes, ivs |-> QIvs,
